@@ -27,9 +27,35 @@ documented "Partition size is less than overlapping window size" error of
 or lacking the method altogether (``pct_change``) -> unsupported; any other
 dask exception -> violation.
 
+Labels
+------
+values / index / length differences: ``<family>[.agg]:<parameter features>:<series|frame|one-column-frame>&
+<partition feature>:<kind>``; the partition feature is the first that applies of (cum*, fill: empty-partition,
+all-nan-partition, nan-run-crosses-boundary; cum* with skipna=False: empty-partition,
+nan-before-last-partition; others: empty-partition), else ``any-partitioning``.  dtype differences:
+``<family>:<frame[float+int]|series[int]|...>:dtype``.  Exceptions: ``<family>[:code-path parameters]:
+<ExcType@file:function>``.  cumsum/cumprod and cummin/cummax and ffill/bfill are one family each (same code).
+
 Calibration
 -----------
-* (filled in while calibrating on the unchanged tree)
+* pandas has no ``closed=`` in dask's ``Rolling`` signature -> not generated; ``win_type`` not generated.
+* false alarm corrected: the shared ``frames._classify`` calls a per-column value difference "index" because
+  pandas prints ``[index]: [...]`` in the message -> ``_kind`` maps those to ``values``.
+* false alarm corrected: dtype is not demanded of EMPTY results (``shift/diff`` of zero rows keeps int64 in
+  pandas because no NaN is introduced; dask's meta cannot depend on the length).  Witness:
+  2 rows, all filtered away, ``df[['a','c']].shift(-3)``: pandas int64, dask float64.
+* a dtype difference does not end the comparison: values are compared again with ``check_dtype=False`` (the
+  int->float64 finding of cumsum used to hide the NaN-propagation finding).
+* ``NotImplementedError("Partition size is less than overlapping window size")`` is the documented limit of
+  ``map_overlap`` (``_combined_parts``): unsupported, counted; it also fires for ``shift(n, freq=...)``.
+* ``pct_change`` does not exist on dask Series/DataFrame in this tree: unsupported, counted.
+* map_overlap functions are only such whose window fits into before/after (rolling(b+1) with before>=b,
+  shift(-a) with after>=a, centered rolling(2b+1) with before=after=b, ffill+bfill(limit=b)).
+* cut points of the explicit compositions never split equal index labels (dask's divisions could not describe
+  such a partitioning); empty partitions are placed inside index gaps so that the divisions stay truthful
+  (checked once with the C41 monitor for every grid partitioning).
+* the cumulative family is additionally run on a seed-independent grid (2 fixed frames x 13 partitionings x 6
+  targets x 4 functions x skipna) so that its many mechanism labels do not depend on lucky seeds.
 """
 from __future__ import annotations
 
@@ -92,6 +118,8 @@ EX_OPS = (
     {"op": "fill", "fn": "ffill", "limit": 1},
     {"op": "fill", "fn": "bfill", "limit": None},
 )
+GRID_PARTS = (([4, 4], []), ([1, 7], []), ([3, 1, 4], []), ([2, 2, 4], []), ([1, 1, 6], []), ([3, 5], []),
+              ([7, 1], []), ([1] * 8, []), ([8], []), ([4, 4], [1]), ([4, 4], [0]), ([2, 3, 3], [1, 3]), ([4, 4], [2]))
 INDEX_KINDS = ("gaps", "gaps", "dups", "datetime", "datetime", "datetime-dups", "float")
 AGGS = ("sum", "mean", "min", "max", "count", "std", "var", "median", "apply-raw", "apply-series")
 
@@ -120,6 +148,18 @@ def cases(tier, seed):
                 for op in EX_OPS:
                     yield {"space": "exhaustive", "part": {"how": "sizes", "sizes": sizes, "via": via},
                            "target": tgt, "op": op}
+    # deterministic grid over the cumulative family (seed independent): every fn x skipna x target shape x
+    # partition feature (plain, single rows, all-NaN partition, NaN run across a boundary, empty partition
+    # first / inner / several) on two fixed frames, so that every mechanism label of this family is reached in
+    # every run and not only by lucky seeds
+    for fr in (0, 1):
+        for sizes, empty_at in GRID_PARTS:
+            for tgt in ("frame", "series-c", "series-a", "series-d", "cols-ac", "cols-c"):
+                for fn in ("cumsum", "cumprod", "cummin", "cummax"):
+                    for skipna in (True, False):
+                        yield {"space": "grid", "frame": fr, "target": tgt,
+                               "part": {"how": "sizes", "sizes": sizes, "empty_at": empty_at, "via": "delayed"},
+                               "op": {"op": "cum", "fn": fn, "skipna": skipna}}
     n = 2600 if tier == "quick" else 26000
     for _ in range(n):
         nrows = rng.choice((2, 3, 5, 8, 12, 16, 24, 40, rng.randint(1, 40)))
@@ -190,15 +230,16 @@ def shard_setup(tier, seed):
     dask.config.set(scheduler="sync")
 
 
-def _fixed_frame():
+def _fixed_frame(which=0):
     import numpy as np
     import pandas as pd
 
     nan = np.nan
+    c = [nan, 1.5, nan, nan, -2.0, 3.0, nan, 0.5] if which == 0 else [1.5, nan, nan, 2.0, -1.0, nan, 0.5, 3.0]
     return pd.DataFrame({"a": np.array([1, 2, -1, 3, 1, -2, 2, 1], dtype="int64"),
-                         "c": [nan, 1.5, nan, nan, -2.0, 3.0, nan, 0.5],
+                         "c": c,
                          "d": [0.5, -1.0, 2.0, 2.0, -3.0, 1.0, 0.0, 4.0]},
-                        index=pd.Index(np.arange(8, dtype="int64") * 2, name="idx"))
+                        index=pd.Index(np.arange(8, dtype="int64") * 2 + 1, name="idx"))
 
 
 def _rand_frame(case):
@@ -305,6 +346,21 @@ def _partition(pdf, desc):
             m = _between(lo, hi)
             if m is None:
                 continue
+            parts.insert(j, pdf.iloc[0:0])
+            divs.insert(j, m)
+    for j in sorted(desc.get("empty_at", ()), reverse=True):
+        # explicit positions (grid): an empty partition before partition j of the row composition,
+        # j == len(parts) appends one (its interval lies above the last label)
+        if j == 0:
+            parts.insert(0, pdf.iloc[0:0])
+            divs.insert(0, divs[0] - 1)
+        elif j >= len(parts):
+            last = divs[-1]
+            divs[-1] = last + 1                     # previous partition: [.., last + 1) holds the maximum
+            parts.append(pdf.iloc[0:0])
+            divs.append(last + 2)
+        else:
+            m = _between(parts[j - 1].index[-1].item(), divs[j])
             parts.insert(j, pdf.iloc[0:0])
             divs.insert(j, m)
     via = desc.get("via", "delayed")
@@ -522,7 +578,12 @@ def run_case(case, ctx):
     op = case["op"]
     with warnings.catch_warnings():
         warnings.simplefilter("ignore")
-        pdf = _fixed_frame() if case.get("space") == "exhaustive" else _rand_frame(case)
+        if case.get("space") == "exhaustive":
+            pdf = _fixed_frame()
+        elif case.get("space") == "grid":
+            pdf = _fixed_frame(case["frame"])
+        else:
+            pdf = _rand_frame(case)
         try:
             ddf = _partition(pdf, case["part"])
         except Exception as e:  # noqa: BLE001
@@ -581,7 +642,9 @@ def run_case(case, ctx):
         ctx.count("compared:" + op["op"])
         if nparts >= 2:
             ctx.count("compared_multi_partition")
-        m = frames.compare(got, expected, ordered=True, rtol=1e-9)
+        # an EMPTY pandas result keeps int64 where any non-empty one becomes float64 (shift/diff/rolling
+        # introduce no NaN into zero rows); dask's meta cannot know the length -> dtype not demanded there
+        m = frames.compare(got, expected, ordered=True, rtol=1e-9, check_dtype=len(expected) > 0)
         if m:
             ctx.violation(_value_label(op, feats, px, _kind(m)), m[1],
                           got=_show(got), expected=_show(expected), **detail)
